@@ -6,9 +6,10 @@ package seccomp
 // the build tag "verif".
 
 // SockFprog: the program handed to the kernel is exactly the filter (length not truncated,
-// pointer to its first instruction). An empty filter has no first instruction.
+// pointer to its first instruction). An empty filter is no program (nil).
 //@ func pkg/seccomp.(Filter).SockFprog props C01 C10
 //@   arith int
-//@   requires len(f) >= 1 && len(f) <= 65535
+//@   requires len(f) <= 65535
 //@   assigns nothing
-//@   ensures result != nil && fresh(result) && int(result.Len) == len(f) && result.Filter == elemaddr(f, 0)
+//@   ensures len(f) == 0 ==> result == nil
+//@   ensures len(f) >= 1 ==> result != nil && fresh(result) && int(result.Len) == len(f) && result.Filter == elemaddr(f, 0)
